@@ -257,9 +257,11 @@ impl Campaign for C06 {
     }
     fn iterate(&self, iter_seed: u64, rep: &mut ShardReport, _deadline: Instant) {
         let mut r = Rng::new(iter_seed);
-        let params = match r.below(3) {
-            0 => policy_family("policy-heavy"),
-            1 => GenParams {
+        let family_pick = r.below(6);
+        let params = match family_pick {
+            0 | 1 => policy_family("policy-heavy"),
+            2 => GenParams { family: "policy-heavy-creates", kind_w: [4, 2, 3, 12], ctor_calls_origin: true, pre_delegated: 3, ..policy_family("policy-heavy-creates") },
+            3 => GenParams {
                 family: "mixed",
                 specs: ALL_SPECS,
                 txs: (3, 16),
@@ -285,10 +287,12 @@ impl Campaign for C06 {
         };
         let case = generate(&params, r.next());
         let n = case.txs.len();
-        let policy = match r.below(4) {
+        // policy-heavy blocks mostly run with the reserve policy on (that is where the two paths
+        // share order-dependent planner state); the others draw uniformly
+        let policy = match if family_pick <= 2 && r.chance(3, 4) { 2 + r.below(4) } else { r.below(4) } {
             0 => DelegatedSafetyConfig::disabled(),
             1 => DelegatedSafetyConfig::create_only(),
-            2 => DelegatedSafetyConfig::reserve_only(),
+            2 | 4 => DelegatedSafetyConfig::reserve_only(),
             _ => DelegatedSafetyConfig::enabled(),
         };
         let policy_inert = !policy.for_spec(case.spec).forbid_delegated_create && !policy.for_spec(case.spec).reserve_delegated_balance;
